@@ -425,6 +425,28 @@ def run(ctx):
                 r.ok("steal|order", "right[1..] chained with left: every other worker, never self", fn=s)
             else:
                 r.bad("steal|order", "steal does not visit right[1..] then left", fn=s, construct="steal")
+        elif [c for c in s.calls() if c.path.endswith("Iterator::cycle")]:
+            # the cyclic spelling: stealers.iter().cycle().skip(index + 1).take(len - 1) — starts right after itself, wraps
+            # around, and stops one short of itself
+            cy = [c for c in s.calls() if c.path.endswith("Iterator::cycle")]
+            sk = [c for c in s.calls() if c.path.endswith("Iterator::skip")]
+            tk = [c for c in s.calls() if c.path.endswith("Iterator::take")]
+
+            def plus_minus_one(e, op, what):
+                return any(x.k == "bin" and x[1] in (op, op + "WithOverflow") and any(y.k == "const" and y[1] == 1 for y in (x[2], x[3]))
+                           and what(x) for x in walk(e))
+            ok_c = len(cy) == 1 and mentions_field(ebs.operand(cy[0].args[0]), W + "::Stack", "stealers")
+            ok_s = len(sk) == 1 and mentions_call(ebs.operand(sk[0].args[0]), "core::iter::traits::iterator::Iterator::cycle") and \
+                plus_minus_one(ebs.operand(sk[0].args[1]), "Add", lambda x: mentions_field(x, W + "::Stack", "index"))
+            ok_t = len(tk) == 1 and mentions_call(ebs.operand(tk[0].args[0]), "core::iter::traits::iterator::Iterator::skip") and \
+                plus_minus_one(ebs.operand(tk[0].args[1]), "Sub", lambda x: mentions_field(x, W + "::Stack", "stealers") and
+                               any(y.k == "len" or is_call(y, "[T]::len", "alloc::vec::Vec::len") for y in walk(x)))
+            if ok_c and ok_s and ok_t:
+                r.ok("steal|order", "stealers cycled from index + 1 for len - 1 steps: every other worker, never self", fn=s)
+                r.ok("steal|all", "len - 1 steps from index + 1 visit every other deque once", fn=s)
+            else:
+                r.bad("steal|order", "steal's cyclic sweep is not `skip(index + 1)` then `take(len - 1)` over the stealers "
+                      "(cycle %s, skip %s, take %s)" % (ok_c, ok_s, ok_t), fn=s, construct="steal")
         else:
             r.bad("steal|order", "steal no longer splits the stealers at its own index and skips itself", fn=s, construct="steal")
         # between the chain over the other deques and whatever consumes it, nothing may drop an element: a worker that never
